@@ -667,6 +667,11 @@ func c01ZA(c *Ctx) {
 			d = "pad32(" + p + ")"
 		} else if b, ok := oneByte(arg); ok {
 			d = "byte(" + be.plain(b, w).String() + ")"
+		} else if v, n, ok := putUintBuffer(arg); ok && n == 2 {
+			// var b [2]byte; binary.BigEndian.PutUint16(b[:], v); Write(b[:]): the two bytes of v, high byte first
+			vs := be.plain(v, w).String()
+			seq = append(seq, "byte(trunc8(shr("+vs+",0x8)))", "byte(trunc8("+vs+"))")
+			continue
 		} else if bs, ok := literalBytes(arg); ok {
 			// []byte{a, b, ...}: the same bytes as one Write per element
 			for _, b := range bs {
@@ -840,6 +845,15 @@ func c01DER(c *Ctx) {
 		}
 	})
 	if inputAlloc == nil {
+		// encoding/asn1.Unmarshal into a struct is not a strict decoder: it fills the struct's fields from the front of
+		// the SEQUENCE and silently ignores any further elements inside it (library behaviour), so SEQUENCE{r, s, x}
+		// would verify — "exactly two INTEGERs" cannot hold whatever the caller checks on the returned rest
+		for _, ci := range allCalls(f) {
+			if call, ok := ci.(*ssa.Call); ok && calleeID(&call.Call) == "encoding/asn1.Unmarshal" && len(call.Call.Args) == 2 && call.Call.Args[0] == ssa.Value(sig) {
+				c.ViolatedHard("G-C01-der", fn, "DER parsing", "the signature is decoded with encoding/asn1.Unmarshal into a struct, which ignores extra elements inside the SEQUENCE: a signature that is not exactly SEQUENCE{r INTEGER, s INTEGER} is accepted", call.Pos())
+				return
+			}
+		}
 		c.Undecided("G-C01-der", fn, "DER parsing", "the signature is not parsed through a cryptobyte.String (idiom not recognised)", f.Pos())
 		return
 	}
@@ -1113,4 +1127,67 @@ func curveOps(f *ssa.Function) []ssa.Instruction {
 		}
 	}
 	return out
+}
+
+// putUintBuffer: arg is the whole of a local [n]byte array (b[:]) whose only write is one
+// binary.BigEndian.PutUintN(b[:], v) with n = N/8, executed before arg is used; returns v and n.
+func putUintBuffer(arg ssa.Value) (ssa.Value, int, bool) {
+	sl, ok := arg.(*ssa.Slice)
+	if !ok || sl.Low != nil || sl.High != nil {
+		return nil, 0, false
+	}
+	al, ok := sl.X.(*ssa.Alloc)
+	if !ok {
+		return nil, 0, false
+	}
+	pt, ok := al.Type().Underlying().(*types.Pointer)
+	if !ok {
+		return nil, 0, false
+	}
+	arr, ok := pt.Elem().Underlying().(*types.Array)
+	if !ok {
+		return nil, 0, false
+	}
+	n := int(arr.Len())
+	want := map[int]string{2: "(encoding/binary.bigEndian).PutUint16", 4: "(encoding/binary.bigEndian).PutUint32", 8: "(encoding/binary.bigEndian).PutUint64"}[n]
+	if want == "" {
+		return nil, 0, false
+	}
+	var put *ssa.Call
+	for _, r := range *al.Referrers() {
+		s2, isSl := r.(*ssa.Slice)
+		if !isSl || s2.Low != nil || s2.High != nil {
+			if _, isDbg := r.(*ssa.DebugRef); isDbg {
+				continue
+			}
+			return nil, 0, false // element stores, partial slices, escapes
+		}
+		for _, u := range *s2.Referrers() {
+			call, isCall := u.(*ssa.Call)
+			if !isCall {
+				if _, isDbg := u.(*ssa.DebugRef); isDbg {
+					continue
+				}
+				return nil, 0, false
+			}
+			id := calleeID(&call.Call)
+			if id == want && len(call.Call.Args) == 3 && call.Call.Args[1] == ssa.Value(s2) {
+				if put != nil {
+					return nil, 0, false
+				}
+				put = call
+				continue
+			}
+			// readers: hash.Write / Writer.Write of the buffer
+			if call.Call.IsInvoke() && call.Call.Method.Name() == "Write" || strings.HasSuffix(id, ".Write") {
+				continue
+			}
+			return nil, 0, false
+		}
+	}
+	user, isInstr := arg.(ssa.Instruction)
+	if put == nil || !isInstr || !instrDominates(put, user) {
+		return nil, 0, false
+	}
+	return put.Call.Args[2], n, true
 }
